@@ -152,12 +152,16 @@ def run_case(spec, ctx, R):
     if solver.startswith("rsp"):
         cfg = {"block_size": int(rng.integers(1, N + 1)), "max_iter": int(rng.choice([3, 5, 8, 12, 20, 30, 45, 60, 100, 400])), "tol": tol,
                "test_sketch_size": int(rng.choice([2, 4, 8])),
+               "seed_via": str(rng.choice(["global", "constructor"])),
                "column_solver": "spd" if solver == "rsp_column_spd" else ("qr" if solver != "rsp_compute" else str(rng.choice(["qr", "spd"])))}
     elif solver == "hybrid":
         cfg = {"r": int(rng.integers(1, N + 1)), "p": int(rng.choice([2, 3, 4, 8])), "T": int(rng.choice([1, 5])), "tol": tol,
                "max_iter": int(rng.choice([1, 2, 3, 5, 8, 12, 20, 40, 200])), "column_solver": str(rng.choice(["qr", "spd"]))}
     else:
         cfg = {"tol": tol, "max_iter": int(rng.choice([1, 2, 3, 4, 5, 6, 8, 10, 12, 16, 24, 500, 500, 500, 500])), "preconditioner_rank": int(rng.choice([0, 0, max(1, N // 2)]))}
+    if solver.startswith("rsp") and spec["idx"] % 3 == 0:
+        cfg["test_sketch_size"] = cfg["block_size"]          # the stopping sketch has the shape of an iteration sketch
+    seed_via = cfg.pop("seed_via", "global")
     A0 = refq.fa(A).copy()
     nrmA = refq.fro(A)
     smin = float(s[-1])
@@ -171,11 +175,12 @@ def run_case(spec, ctx, R):
         np.random.seed(sd)
         try:
             if solver.startswith("rsp"):
-                obj = S.RandomizedSketchProjectPseudoinverse(**cfg)
+                obj = S.RandomizedSketchProjectPseudoinverse(**cfg, **({"seed": sd} if seed_via == "constructor" else {}))
+                ctx.hit("rsp:seed_via_" + seed_via)
                 orig = obj._generate_random_sketch
 
-                def rec(rows, cols, _orig=orig):
-                    out = _orig(rows, cols)
+                def rec(*a, _orig=orig, **kw):
+                    out = _orig(*a, **kw)
                     if len(captured) < 1:
                         captured.append(out.copy())
                     return out
@@ -186,7 +191,7 @@ def run_case(spec, ctx, R):
                 row = (solver == "rsp_row") or (solver == "rsp_compute" and m < n)
                 ssk = cfg["test_sketch_size"]
             elif solver == "hybrid":
-                X, info = S.HybridRSPNewtonSchulz(**cfg).compute(A)
+                X, info = S.HybridRSPNewtonSchulz(**cfg, **({"seed": sd} if spec["idx"] % 2 else {})).compute(A)
                 row, ssk = False, min(6, n)
             else:
                 X, info = S.CGNEQSolver(**cfg).compute(A)
@@ -204,7 +209,7 @@ def run_case(spec, ctx, R):
         true = refq.fro(E) / np.sqrt(dimE)
         rn = [float(v) for v in info.get("residual_norms", [])]
         conv = bool(info["converged"])
-        det = {"shape": [m, n], "cond": kap, "config": cfg, "np_seed": sd, "true_residual": true,
+        det = {"shape": [m, n], "cond": kap, "config": cfg, "np_seed": sd, "seed_via": seed_via, "true_residual": true,
                "reported_last": rn[-1] if rn else None, "converged": conv, "iterations": info.get("iterations", info.get("iterations_rsp"))}
         floor = C * EPS * max(m, n) * kap
         key = "cgne" if solver == "cgne" else ("hybrid" if solver == "hybrid" else ("rsp_row" if row else
